@@ -33,6 +33,11 @@ class Family:
 
     paths = ()   # XPath paths usable with path= (relative to root) for partial ops
 
+    def assemble(self, directory, cls, build=True, order=None):
+        """Canonical assembly of the schema from the source files written in `directory`."""
+        import os
+        return cls(os.path.join(directory, next(iter(self.sources(cls.XSD_VERSION)))), build=build)
+
 
 def _decl():
     return '<?xml version="1.0" encoding="UTF-8"?>\n'
@@ -895,6 +900,58 @@ class Multi(Family):
         ]
 
 
+class Multi2(Family):
+    """Imports without schemaLocation: the other documents are registered by the caller, in any order."""
+    name = 'multi2'
+    paths = ('*',)
+    extra = ('part2.xsd', 'other2.xsd', 'third2.xsd')
+
+    def sources(self, version):
+        return {
+            'main2.xsd': f'''<xs:schema {XS} targetNamespace="urn:m" xmlns:m="urn:m" xmlns:o="urn:o" xmlns:p="urn:p"
+  elementFormDefault="qualified">
+ <xs:import namespace="urn:o"/>
+ <xs:import namespace="urn:p"/>
+ <xs:element name="root"><xs:complexType><xs:sequence>
+   <xs:element ref="m:slot" maxOccurs="unbounded"/>
+   <xs:element ref="o:thing" minOccurs="0" maxOccurs="unbounded"/>
+   <xs:element ref="p:third" minOccurs="0"/>
+  </xs:sequence><xs:attribute name="ver" type="m:Ver"/></xs:complexType></xs:element>
+</xs:schema>''',
+            'part2.xsd': f'''<xs:schema {XS} targetNamespace="urn:m" xmlns:m="urn:m" xmlns:p="urn:p" elementFormDefault="qualified">
+ <xs:import namespace="urn:p"/>
+ <xs:element name="slot" type="m:Late"/>
+ <xs:element name="alt" type="m:Late" substitutionGroup="m:slot"/>
+ <xs:complexType name="Late"><xs:sequence><xs:element name="v" type="p:PT" minOccurs="0" maxOccurs="3"/></xs:sequence></xs:complexType>
+ <xs:simpleType name="Ver"><xs:restriction base="xs:decimal"><xs:minInclusive value="1"/></xs:restriction></xs:simpleType>
+</xs:schema>''',
+            'other2.xsd': f'''<xs:schema {XS} targetNamespace="urn:o" xmlns:o="urn:o" xmlns:p="urn:p" elementFormDefault="qualified">
+ <xs:import namespace="urn:p"/>
+ <xs:element name="thing"><xs:complexType><xs:sequence><xs:element ref="p:third" minOccurs="0"/></xs:sequence>
+   <xs:attribute name="n" type="p:PT"/></xs:complexType></xs:element>
+</xs:schema>''',
+            'third2.xsd': f'''<xs:schema {XS} targetNamespace="urn:p" xmlns:p="urn:p" elementFormDefault="qualified">
+ <xs:simpleType name="PT"><xs:restriction base="xs:int"><xs:minInclusive value="0"/></xs:restriction></xs:simpleType>
+ <xs:element name="third" type="p:PT"/>
+</xs:schema>''',
+        }
+
+    def assemble(self, directory, cls, build=True, order=None):
+        import os
+        order = list(order) if order is not None else list(self.extra)
+        return cls([os.path.join(directory, 'main2.xsd')] + [os.path.join(directory, n) for n in order], build=build)
+
+    def docs(self, rng):
+        h = '<m:root xmlns:m="urn:m" xmlns:o="urn:o" xmlns:p="urn:p"'
+        return [
+            Doc('m2-valid-a', _decl() + h + ' ver="1.0"><m:slot><m:v>3</m:v></m:slot><m:alt/><o:thing n="3"><p:third>4</p:third></o:thing><p:third>0</p:third></m:root>'),
+            Doc('m2-valid-b', _decl() + h + '><m:slot/></m:root>'),
+            Doc('m2-bad-pt', _decl() + h + '><m:slot><m:v>-3</m:v></m:slot><o:thing n="-1"/></m:root>', 'fault:lexical'),
+            Doc('m2-bad-ver', _decl() + h + ' ver="0.5"><m:slot/></m:root>', 'fault:lexical'),
+            Doc('m2-bad-order', _decl() + h + '><o:thing/><m:slot/></m:root>', 'fault:structure'),
+        ]
+
+
 class Big(Family):
     """Width-parameterised documents that cross the 16 KiB read size of iterparse."""
     name = 'big'
@@ -937,4 +994,4 @@ class Big(Family):
 
 
 FAMILIES = {f.name: f for f in (Ids(), Keys(), XsiType(), Subst(), Fixed(), Wild(), Ns(), Mixed(),
-                                Assert11(), Recur(), Multi(), Big())}
+                                Assert11(), Recur(), Multi(), Multi2(), Big())}
